@@ -15,7 +15,7 @@ RULE = ('one case = one generated peer (name lists over database names including
         'group-exchange moduli 2048..8192): the real CLI writes a policy with -M, the file is loaded and evaluated with -P against the same peer (must pass with no errors) and against every single-attribute perturbation of it '
         '(insert / delete / swap-adjacent one name in each of kex, host keys, ciphers, MACs; other host-key size, CA size, CA type, modulus size; quick: 8 sampled perturbations per peer, thorough: all positions), which must fail naming the field; '
         'plus every built-in policy against a peer synthesised exactly from it (client policies through -c).  Non-trivial: the policy file was written and at least one -P verdict compared; distinct = distinct (peer, perturbation)')
-REQUIRED = {'policies_made': 15, 'same_peer_passes': 15, 'perturbations_checked': 100, 'builtin_policies_checked': 40, 'names_with_equals': 3, 'size_perturbations': 10, 'ca_perturbations': 4}
+REQUIRED = {'multi_target_verdicts': 8, 'policies_made': 15, 'same_peer_passes': 15, 'perturbations_checked': 100, 'builtin_policies_checked': 40, 'names_with_equals': 3, 'size_perturbations': 10, 'ca_perturbations': 4}
 ASSUMPTIONS = ['the mismatched field is recognised by keyword class (exchange / host key / cipher / mac / size / CA / modulus), case-insensitively, so rewording does not alarm',
                'perturbations that would empty a list are skipped (RFC 4253 requires non-empty lists)']
 MANIFEST = {
@@ -34,6 +34,8 @@ def cases(tier, seed):
     n = 24 if tier == 'quick' else 400
     for i in range(n):
         cs.append({'kind': 'roundtrip', 'seed': rng.randrange(1 << 30), 'profile': ['plain', 'equals', 'cert', 'gex', 'rsa', 'cert', 'gss', 'cert'][i % 8], 'all': tier == 'thorough', 'json': i % 2 == 0})
+    for i in range(4 if tier == 'quick' else 40):
+        cs.append({'kind': 'multi', 'seed': rng.randrange(1 << 30), 'profile': ['plain', 'cert', 'rsa', 'equals'][i % 4], 'threads': [1, 3][i % 2], 'json': i % 2 == 0})
     for name in BUILTIN_POLICIES:
         styles = ['strict'] if tier == 'quick' else ['strict', 'roundup', 'largest']
         for st in styles:
@@ -211,6 +213,60 @@ def run_roundtrip(c):
     return viol, counters
 
 
+def run_multi(c):
+    """The policy made from P evaluated in one -T run against drifted copies of P and P itself: P passes with no errors, whatever was evaluated before it."""
+    from harness import multi
+    rng = random.Random(c['seed'] + 7)
+    script = make_peer(c)
+    viol, counters = [], {}
+    d = runner.scratch_dir('c05m')
+    targets = []
+    try:
+        pf = os.path.join(d, 'made.txt')
+        r, p = audit.audit_server(script, ['-M', pf], cwd=d)
+        if r.status != 0 or not os.path.exists(pf):
+            return None, {'why': 'make-policy failed in multi case'}
+        counters['policies_made'] = 1
+        perts = [x for x in perturbations(script, rng, False) if x[0] not in ('size', 'ca', 'modulus')][:3]
+        order = [('drift:' + cls, s2) for cls, _d, s2 in perts] + [('same', script)]
+        if c['seed'] % 2:
+            order = order[:1] + [('same', script)] + order[1:] + [('same', script)]
+        targets = [multi.Target(nm, sc) for nm, sc in order]
+        res = multi.run_multi(targets, c['threads'], 'json' if c['json'] else 'text', extra=['-P', pf], timeout=150)
+        for t in targets:
+            if c['json']:
+                docs = (res.get('docs') or {}).get(t.spec) or (res.get('docs') or {}).get('127.0.0.1:%d' % t.peer.port) or []
+                if not docs:
+                    viol.append(_v('C05/multi-target-entry-missing', 'no JSON entry for a target of a policy run', target=t.name, err=res.get('json_error')))
+                    continue
+                v, errs = ('passed' if docs[0].get('passed') else 'failed'), [e['mismatched_field'] for e in docs[0].get('errors') or []]
+            else:
+                blocks = (res.get('blocks') or {}).get(t.spec) or []
+                if not blocks:
+                    viol.append(_v('C05/multi-target-entry-missing', 'no block for a target of a policy run', target=t.name))
+                    continue
+                pt = report.parse_policy_text(blocks[0])
+                v, errs = pt['result'], pt['errors']
+            counters['multi_target_verdicts'] = counters.get('multi_target_verdicts', 0) + 1
+            if t.name == 'same':
+                counters['same_peer_passes'] = counters.get('same_peer_passes', 0) + 1
+                if v != 'passed' or errs:
+                    viol.append(_v('C05/own-policy-does-not-pass:multi-target', 'in a multi-target policy run the peer the policy was made from does not pass with an empty error list', verdict=v, errors=errs, order=[x.name for x in targets], threads=c['threads']))
+            else:
+                counters['perturbations_checked'] = counters.get('perturbations_checked', 0) + 1
+                cls = t.name.split(':', 1)[1]
+                kw = {'exchange': 'exchange', 'host key': 'host key', 'cipher': 'cipher', 'mac': 'mac'}[cls]
+                if v != 'failed':
+                    viol.append(_v('C05/drift-not-detected:multi-target:' + cls, 'a drifted peer passes in a multi-target policy run', order=[x.name for x in targets]))
+                elif [e for e in errs if kw not in e.lower()]:
+                    viol.append(_v('C05/drift-misattributed:multi-target', 'a drifted peer is reported with errors for fields it does not differ in', target=t.name, errors=errs, order=[x.name for x in targets]))
+    finally:
+        for t in targets:
+            t.stop()
+        runner.cleanup(d)
+    return viol, counters
+
+
 def run_builtin(c):
     from ssh_audit.builtin_policies import BUILTIN_POLICIES
     pol = BUILTIN_POLICIES[c['policy']]
@@ -232,7 +288,7 @@ def run_builtin(c):
 
 
 def run_case(c):
-    viol, counters = (run_roundtrip if c['kind'] == 'roundtrip' else run_builtin)(c)
+    viol, counters = {'roundtrip': run_roundtrip, 'builtin': run_builtin, 'multi': run_multi}[c['kind']](c)
     if viol is None:
         return {'verdict': 'inconclusive', 'why': counters.get('why')}
     seen, uniq = set(), []
